@@ -540,6 +540,7 @@ func (c *Ctx) c07MeshCase(oob bool) {
 			c.Note("stored-normals.all-nonzero")
 		}
 	}
+	c.c07Q32Stored(m, bs)
 	c.c07PipeFromWriter(m, bs)
 	c.c07Readers(bs, c.Rng.Intn(8) == 0)
 	if m.HasFloat3Attribute(modeling.PositionAttribute) && m.HasFloat3Attribute(modeling.NormalAttribute) {
@@ -912,4 +913,5 @@ func runC07(c *Ctx) {
 			c.c07MeshCase(true)
 		}
 	}
+	c.c07Q32Spec() // last: the PRNG sequence of the older lines is unchanged
 }
